@@ -90,7 +90,7 @@ def _median_int(eng, ws, vs):
     return (lo + hi) / 2
 
 
-def slice_stats(eng, orient="rows", nvals=3, none_at=(), nrows=2, subtotal=True, integer=False, median=False):
+def slice_stats(eng, orient="rows", nvals=3, none_at=(), nrows=2, subtotal=True, integer=False, median=False, sd_first=False):
     vals = _values(eng, nvals, none_at)
     ins = [C.subtotal("S", [1, 2])] if subtotal else []
     if orient == "rows":
@@ -132,6 +132,10 @@ def slice_stats(eng, orient="rows", nvals=3, none_at=(), nrows=2, subtotal=True,
             meds.append(_median_int(eng, ws, vals))
     pre = "rows" if orient == "rows" else "columns"
     obs = []
+    if sd_first:
+        # the std-dev / std-err are read BEFORE the mean they are computed from
+        getattr(part, pre + "_scale_mean_stddev")
+        getattr(part, pre + "_scale_mean_stderr")
     if not median:
         obs.append(Obs(pre + "_scale_mean", getattr(part, pre + "_scale_mean"), C.to_array(means)))
         obs.append(Obs(pre + "_scale_mean_stddev", getattr(part, pre + "_scale_mean_stddev"), C.to_array(sds)))
@@ -245,6 +249,7 @@ def specs(tier):
     for orient in ("rows", "cols"):
         add("%s mean/sd/se 3 values" % orient, "slice_stats", dict(orient=orient))
         add("%s mean/sd/se one category without value" % orient, "slice_stats", dict(orient=orient, none_at=[1]))
+        add("%s sd/se read before the mean, one category without value" % orient, "slice_stats", dict(orient=orient, none_at=[1], sd_first=True))
         add("%s median 3 values" % orient, "slice_stats", dict(orient=orient, integer=True, median=True, subtotal=False, nrows=2), max_paths=2500)
         add("%s median one category without value" % orient, "slice_stats", dict(orient=orient, none_at=[0], integer=True, median=True, subtotal=True), max_paths=2500)
         add("%s median margin, integer counts" % orient, "margin_median", dict(orient=orient), max_paths=2500)
